@@ -9,7 +9,6 @@ Oracle after every operation, from the simulator's ground truth only (FIFO lists
 OBSERVE_TX registers, IRQ line, the STATUS byte the radio shifted out in the last SPI transaction,
 packets on the air): see `Checker`.
 """
-import copy
 import pickle
 
 from .. import harness as H
